@@ -22,7 +22,8 @@ import (
 // C15 — SCRAM authenticates the server.
 
 type c15Case struct {
-	Variant int   `json:"variant"` // 0 SHA-1, 1 SHA-256, 2 SHA-1-PLUS, 3 SHA-256-PLUS
+	Reuse   bool  `json:"reuse,omitempty"` // the Auth object already completed a conforming exchange on an earlier connection
+	Variant int   `json:"variant"`         // 0 SHA-1, 1 SHA-256, 2 SHA-1-PLUS, 3 SHA-256-PLUS
 	Prefix  []int `json:"choices"`
 }
 
@@ -75,6 +76,7 @@ type c15Server struct {
 	acked           []string
 	lastWasFinal    int // symbol of the last server message if it was a server-final, else -1
 	ackOfInvalid    string
+	prevSig         []byte // genuine server signature of an earlier exchange with the same Auth object (replay material)
 }
 
 func (s *c15Server) h() func() hash.Hash {
@@ -95,6 +97,9 @@ var c15Salt = []byte("salty-salt-0123")
 const c15Iter = 64
 
 func (s *c15Server) resetExchange() {
+	if s.validSig != nil {
+		s.prevSig = s.validSig
+	}
 	s.haveClientFirst, s.clientBare, s.cnonce, s.gs2 = false, "", "", ""
 	s.serverFirstSent, s.firstAnswered, s.clientFinalNoPf, s.firstExtends = "", false, "", false
 	s.validSig, s.validSigShown = nil, false
@@ -200,6 +205,10 @@ func (s *c15Server) emit(sym int) (challenge []byte, code int) {
 		return []byte("v=" + b64(sig)), 334
 	case symFinalOtherKey:
 		s.lastWasFinal = symFinalOtherKey
+		if s.prevSig != nil {
+			// replay: the genuine signature of the previous exchange of this very Auth object
+			return []byte("v=" + b64(s.prevSig)), 334
+		}
 		salted := sasl.PBKDF2(h, []byte("some other password"), c15Salt, c15Iter, h().Size())
 		sig := mac(h, mac(h, salted, []byte("Server Key")), []byte("n=other,r=abc,r=abcdef,s=c2FsdA==,i=64,c=biws,r=abcdef"))
 		return []byte("v=" + b64(sig)), 334
@@ -249,90 +258,45 @@ func (s *c15Server) describe() string {
 }
 
 func c15Exec(r *vf.Run, variant, maxLen int, c *vf.Chooser) (keys, whats []string, desc string) {
+	return c15ExecR(r, variant, maxLen, false, c)
+}
+
+func c15ExecR(r *vf.Run, variant, maxLen int, reuse bool, c *vf.Chooser) (keys, whats []string, desc string) {
 	add := func(k, w string) { keys = append(keys, k); whats = append(whats, w) }
 	srv := &c15Server{c: c, variant: variant, maxLen: maxLen, lastWasFinal: -1, cbData: []byte("uniq-12bytes")}
-	sess := &refsmtp.Session{Host: hx.Host, Caps: []string{"AUTH " + strings.Join(c15Variants, " ")}}
-	sess.NewAuth = func(*refsmtp.Session, string) refsmtp.AuthExchange { return junkExchange{} }
-	sess.Script = func(s *refsmtp.Session, ev *refsmtp.Event, def refsmtp.Action) refsmtp.Action {
-		if ev.Verb != "AUTH" && ev.Verb != "AUTHRESP" {
-			return def
-		}
-		if ev.Verb == "AUTHRESP" {
-			if ev.Line == "*" {
-				return def
-			}
-			raw, err := base64.StdEncoding.DecodeString(ev.Line)
-			if err != nil {
-				return def
-			}
-			srv.observe(raw)
-		} else if f := strings.Fields(ev.Line); len(f) == 3 {
-			raw, _ := base64.StdEncoding.DecodeString(f[2])
-			srv.observe(raw)
-		}
-		if len(srv.sent) >= maxLen {
-			// sequence bound reached: end the exchange with a failure
-			ch, code := srv.emit(sym535)
-			_ = ch
-			return refsmtp.Action{Kind: refsmtp.ActReply, Code: code, Text: []string{"authentication failed"}}
-		}
-		conf := srv.conforming()
-		// choice 0 = the conforming message, 1..9 = the other nine symbols in alphabet order
-		pick := c.Choose(fmt.Sprintf("srvmsg#%d", len(srv.sent)+1), nSyms)
-		sym := conf
-		if pick > 0 {
-			k := 0
-			for x := 0; x < nSyms; x++ {
-				if x == conf {
-					continue
-				}
-				k++
-				if k == pick {
-					sym = x
-				}
-			}
-		}
-		ch, code := srv.emit(sym)
-		switch code {
-		case 334:
-			return refsmtp.Action{Kind: refsmtp.ActReply, Code: 334, Text: []string{base64.StdEncoding.EncodeToString(ch)}}
-		case 235:
-			return refsmtp.Action{Kind: refsmtp.ActReply, Code: 235, Text: []string{"2.7.0 authentication successful"}}
-		}
-		return refsmtp.Action{Kind: refsmtp.ActReply, Code: 535, Text: []string{"5.7.8 authentication failed"}}
+	var shared smtp.Auth
+	st0 := &tls.ConnectionState{Version: tls.VersionTLS12, TLSUnique: srv.cbData, HandshakeComplete: true}
+	switch variant {
+	case 0:
+		shared = smtp.ScramSHA1Auth(c15User, c15Pass)
+	case 1:
+		shared = smtp.ScramSHA256Auth(c15User, c15Pass)
+	case 2:
+		shared = smtp.ScramSHA1PlusAuth(c15User, c15Pass, st0)
+	default:
+		shared = smtp.ScramSHA256PlusAuth(c15User, c15Pass, st0)
 	}
-	conn := refsmtp.NewConn(sess)
-	var authErr error
-	pan, pw := vf.Guard(func() {
-		cl, err := smtp.NewClient(conn, hx.Host)
-		if err != nil {
-			r.HarnessError("C15 NewClient: %v", err)
+	if reuse {
+		// connection 1: a conforming exchange (all default choices) with the same Auth object; its genuine
+		// server signature becomes replay material for connection 2
+		pre := &c15Server{c: vf.NewChooser(nil), variant: variant, maxLen: 8, lastWasFinal: -1, cbData: srv.cbData}
+		if err := c15Drive(r, pre, shared, 8); err != nil {
+			r.HarnessError("C15 reuse: the conforming first exchange failed: %v", err)
 			return
 		}
-		var a smtp.Auth
-		st := &tls.ConnectionState{Version: tls.VersionTLS12, TLSUnique: srv.cbData, HandshakeComplete: true}
-		switch variant {
-		case 0:
-			a = smtp.ScramSHA1Auth(c15User, c15Pass)
-		case 1:
-			a = smtp.ScramSHA256Auth(c15User, c15Pass)
-		case 2:
-			a = smtp.ScramSHA1PlusAuth(c15User, c15Pass, st)
-		default:
-			a = smtp.ScramSHA256PlusAuth(c15User, c15Pass, st)
-		}
-		authErr = cl.Auth(a)
-		if authErr == nil {
-			_ = cl.Quit()
-		}
-		_ = cl.Close()
-	})
+		srv.prevSig = pre.validSig
+	}
+	var authErr error
+	var pan bool
+	var pw string
+	var transcript []refsmtp.Exchange
+	pan, pw = vf.Guard(func() { authErr, transcript = c15DriveT(r, srv, shared, maxLen) })
 	desc = srv.describe()
 	if pan {
 		add("panic/"+vf.PanicSite(pw), pw)
 		return
 	}
-	protoStates(r, sess.Transcript)
+	protoStates(r, transcript)
 	ok := authErr == nil
 	legit := srv.legit()
 	if ok && !legit {
@@ -379,6 +343,75 @@ func c15Exec(r *vf.Run, variant, maxLen int, c *vf.Chooser) (keys, whats []strin
 	return
 }
 
+// c15DriveT runs one AUTH exchange of auth against the scripted server srv on a fresh connection.
+func c15DriveT(r *vf.Run, srv *c15Server, auth smtp.Auth, maxLen int) (error, []refsmtp.Exchange) {
+	c := srv.c
+	sess := &refsmtp.Session{Host: hx.Host, Caps: []string{"AUTH " + strings.Join(c15Variants, " ")}}
+	sess.NewAuth = func(*refsmtp.Session, string) refsmtp.AuthExchange { return junkExchange{} }
+	sess.Script = func(s *refsmtp.Session, ev *refsmtp.Event, def refsmtp.Action) refsmtp.Action {
+		if ev.Verb != "AUTH" && ev.Verb != "AUTHRESP" {
+			return def
+		}
+		if ev.Verb == "AUTHRESP" {
+			if ev.Line == "*" {
+				return def
+			}
+			raw, err := base64.StdEncoding.DecodeString(ev.Line)
+			if err != nil {
+				return def
+			}
+			srv.observe(raw)
+		} else if f := strings.Fields(ev.Line); len(f) == 3 {
+			raw, _ := base64.StdEncoding.DecodeString(f[2])
+			srv.observe(raw)
+		}
+		if len(srv.sent) >= maxLen {
+			_, code := srv.emit(sym535)
+			return refsmtp.Action{Kind: refsmtp.ActReply, Code: code, Text: []string{"authentication failed"}}
+		}
+		conf := srv.conforming()
+		pick := c.Choose(fmt.Sprintf("srvmsg#%d", len(srv.sent)+1), nSyms)
+		sym := conf
+		if pick > 0 {
+			k := 0
+			for x := 0; x < nSyms; x++ {
+				if x == conf {
+					continue
+				}
+				k++
+				if k == pick {
+					sym = x
+				}
+			}
+		}
+		ch, code := srv.emit(sym)
+		switch code {
+		case 334:
+			return refsmtp.Action{Kind: refsmtp.ActReply, Code: 334, Text: []string{base64.StdEncoding.EncodeToString(ch)}}
+		case 235:
+			return refsmtp.Action{Kind: refsmtp.ActReply, Code: 235, Text: []string{"2.7.0 authentication successful"}}
+		}
+		return refsmtp.Action{Kind: refsmtp.ActReply, Code: 535, Text: []string{"5.7.8 authentication failed"}}
+	}
+	conn := refsmtp.NewConn(sess)
+	cl, err := smtp.NewClient(conn, hx.Host)
+	if err != nil {
+		r.HarnessError("C15 NewClient: %v", err)
+		return err, nil
+	}
+	authErr := cl.Auth(auth)
+	if authErr == nil {
+		_ = cl.Quit()
+	}
+	_ = cl.Close()
+	return authErr, sess.Transcript
+}
+
+func c15Drive(r *vf.Run, srv *c15Server, auth smtp.Auth, maxLen int) error {
+	err, _ := c15DriveT(r, srv, auth, maxLen)
+	return err
+}
+
 type junkExchange struct{}
 
 func (junkExchange) Step([]byte) ([]byte, bool, bool) { return nil, true, false }
@@ -387,19 +420,22 @@ func init() {
 	vf.Register(&vf.Check{
 		ID: "C15", Title: "SCRAM authenticates the server",
 		Run: func(r *vf.Run) {
-			r.SetRule("every server message sequence up to length L over the 11-symbol alphabet {valid server-first, server-first with foreign/truncated nonce, malformed server-first, valid server-final (genuine signature over whatever exchange is running), server-final of another exchange/key, server-final with valid prefix and tampered tail, server-final over empty state, empty challenge, junk, 235, 535}, chosen on the fly after each client message, through smtp.Client.Auth on the synchronous connection, for SCRAM-SHA-1/-256 and both PLUS variants; reference automaton decides which successes are legitimate; distinct by (variant, sequence)")
+			r.SetRule("every server message sequence up to length L over the 11-symbol alphabet {valid server-first, server-first with foreign/truncated nonce, malformed server-first, valid server-final (genuine signature over whatever exchange is running), server-final of another exchange/key, server-final with valid prefix and tampered tail, server-final over empty state, empty challenge, junk, 235, 535}, chosen on the fly after each client message, through smtp.Client.Auth on the synchronous connection, for SCRAM-SHA-1/-256 and both PLUS variants, with a fresh Auth object and with an Auth object that already completed a conforming exchange on an earlier connection (whose genuine server signature the server may replay); reference automaton decides which successes are legitimate; distinct by (variant, sequence)")
 			r.Assume("PLUS variants run over a fabricated TLS 1.2 connection state (tls-unique); the real handshake is covered by C14", "password/user are ASCII")
 			maxLen := 5
 			if r.Thorough {
 				maxLen = 6
 			}
 			r.Extra("max_sequence_length", maxLen)
-			for v := 0; v < 4; v++ {
-				v := v
-				vf.Explore(r, maxLen+1, "C15 "+c15Variants[v], func(c *vf.Chooser) {
-					keys, whats, desc := c15Exec(r, v, maxLen, c)
+			for vv := 0; vv < 8; vv++ {
+				v, reuse := vv%4, vv >= 4
+				vf.Explore(r, maxLen+1, fmt.Sprintf("C15 %s reuse=%v", c15Variants[v], reuse), func(c *vf.Chooser) {
+					keys, whats, desc := c15ExecR(r, v, maxLen, reuse, c)
+					if reuse {
+						desc = "[Auth object reused after a conforming exchange on an earlier connection] " + desc
+					}
 					r.TraceValidated()
-					r.Eval(vf.Hash(fmt.Sprint(v), desc), true)
+					r.Eval(vf.Hash(fmt.Sprint(vv), desc), true)
 					if len(keys) == 0 {
 						r.Outcome("sound")
 					} else {
@@ -408,11 +444,11 @@ func init() {
 					if r.NSamples() < 6 && len(c.Picks) == maxLen {
 						r.Sample(map[string]interface{}{"variant": c15Variants[v], "server_messages": desc})
 					}
-					kase := c15Case{Variant: v, Prefix: append([]int{}, c.Picks...)}
+					kase := c15Case{Variant: v, Reuse: reuse, Prefix: append([]int{}, c.Picks...)}
 					for i, k := range keys {
 						k := k
 						r.Violation(k, whats[i], kase, func() string {
-							ks, _, _ := c15Exec(r, v, maxLen, vf.NewChooser(kase.Prefix))
+							ks, _, _ := c15ExecR(r, v, maxLen, reuse, vf.NewChooser(kase.Prefix))
 							for _, x := range ks {
 								if x == k {
 									return k
@@ -430,7 +466,7 @@ func init() {
 				r.HarnessError("bad case: %v", err)
 				return
 			}
-			keys, whats, desc := c15Exec(r, k.Variant, 6, vf.NewChooser(k.Prefix))
+			keys, whats, desc := c15ExecR(r, k.Variant, 6, k.Reuse, vf.NewChooser(k.Prefix))
 			r.Eval(1, true)
 			fmt.Printf("  %s server messages: %s\n", c15Variants[k.Variant], desc)
 			for i, key := range keys {
